@@ -733,6 +733,8 @@ class Transpose(Linop):
     """
 
     def __init__(self, ishape, axes=None):
+        if axes is not None:
+            axes = [a % len(ishape) for a in axes]
         self.axes = axes
         if axes is None:
             self.iaxes = None
